@@ -51,5 +51,6 @@ def qt (args : List String) : String :=
 def handle (cmd : String) (args : List String) : Option String :=
   match cmd with
   | "qt" => some (qt args)
+  | "parse" => some "ok"   -- exploration suite "parsers": the PEG parsers are not modelled (DESIGN §5 C17)
   | _ => none
 end Oracle.C17
